@@ -17,6 +17,9 @@ only clearer of the flags:
      enumeration of all stores to ._value in the package)
  P4  solvePDE entered with dirty boundary conditions (every dirty valuation of the two flags) hands the solver
      the boundary rows of the *current* coefficients even when the cache holds a stale system
+ P4e solveExplicitPDE entered with dirty flags leaves the invariant intact for its *input* variable: afterwards either a flag
+     is still set or the input's cached boundary term and ghost values are current (the returned variable clears the flag
+     object it shares with the input, known finding P7, so the entry guard is what keeps the input consistent)
  P5  apply_BCs recomputes ghost values and the cached boundary term from the current state and only then clears
      both flags
  P9  [who-may-clear] `.modified = False` occurs only in CellVariable.__init__/apply_BCs and inside the
@@ -39,7 +42,7 @@ from .c12 import flat_vector
 
 PROP = 'C09'
 RULES = {'P1': 'BoundaryFace mutators raise the dirty flag', 'P2': 'writers of _value raise the flag or recompute', 'P3': 'TrackedArray flag semantics',
-         'P4': 'solvePDE never uses a stale cached boundary term when a flag is set', 'P5': 'apply_BCs recomputes then clears', 'P6': 'cache defined before use',
+         'P4': 'solvePDE never uses a stale cached boundary term when a flag is set', 'P4e': 'solveExplicitPDE entered dirty keeps the invariant for its input variable', 'P5': 'apply_BCs recomputes then clears', 'P6': 'cache defined before use',
          'P7': 'no shared boundary-condition object between variables', 'P8': 'copies / arithmetic results independent', 'P9': 'only apply_BCs/__init__ clear the flags'}
 ASSUMPTIONS = ["numpy's `base` of a view of a TrackedArray is the TrackedArray it was sliced from (views of views collapse to the owner): library behaviour, not decided",
                'the interpreter models TrackedArray item assignment by exactly the behaviour P3 proves for the real class']
@@ -237,6 +240,37 @@ def job(args):
     new = w.call('pdesolver', 'solveExplicitPDE', old, Rat.atom(('dt',)), flat_vector(w, 'rhs'))
     ob('P7', 'pdesolver.solveExplicitPDE/shared-BC-object', new.attrs.get('BCs') is not old.attrs.get('BCs'),
        "the variable returned by solveExplicitPDE holds the very BoundaryConditions object of its input (shared dirty flag)" if new.attrs.get('BCs') is old.attrs.get('BCs') else "BCs not shared", fe.loc())
+    # P4e solveExplicitPDE entered dirty: the invariant must hold for the *input* variable afterwards
+    for bdirty, vd in ((True, False), (True, True), (False, True)):
+        bc = w.boundary_conditions()
+        old = w.cell_variable('phi', bc)
+        old.attrs['BCsTerm_precalc'] = True
+        stale_bc = w.boundary_conditions(name='stale')
+        old.attrs['_BCsTerm'] = w.call('boundary', 'boundaryConditionsTerm', stale_bc if bdirty else bc)
+        bc.attrs['left'].attrs['_c'].attrs['_modified'] = bdirty
+        old.attrs['_value'].attrs['_modified'] = vd
+        construct = f"pdesolver.solveExplicitPDE/BCs.modified={bdirty},value.modified={vd}"
+        try:
+            w.call('pdesolver', 'solveExplicitPDE', old, Rat.atom(('dt',)), flat_vector(w, 'rhs'))
+        except AbstractRaise as e:
+            ob('P4e', construct, False, f"raises {e.exc}: {e.msg}", fe.loc())
+            continue
+        still_dirty = bool(_bc_dirty(w, old.attrs['BCs'])) or vdirty(old)
+        G = tuple(ZERO if k == 0 else w.t[k] for k in range(d))
+        ct = old.attrs.get('_BCsTerm')
+        names = set()
+        if isinstance(ct, tuple) and isinstance(ct[0], ASparse):
+            row = F.row_by_col(w, w.matrix_row(ct[0], G))
+            names = {atom_key(a)[0] for (c, v) in row.values() for a in v.atoms() if isinstance(atom_key(a), tuple)}
+        cache_ok = 'stale' not in names and 'bc' in names
+        val = snap(old.attrs['_value'])
+        interior = Box(Arr(tuple(w.N), lambda idx: Rat.atom(('phi',) + tuple(i + 1 for i in idx))))
+        expect = snap(w.call('boundary', 'cellValuesWithBoundaries', interior, bc))
+        ghosts_ok = is_zero(val.at(G) - expect.at(G))
+        ob('P4e', construct, still_dirty or (cache_ok and ghosts_ok),
+           f"after the explicit step the input variable is {'still flagged dirty' if still_dirty else 'flagged clean'}; its cached boundary row mentions "
+           f"{sorted(n for n in names if n in ('bc', 'stale'))}; ghost values {'current' if ghosts_ok else 'stale'} "
+           "(invariant: clean flags imply current cache and ghosts - the returned variable shares the flag object and clears it)", fe.loc())
     return dict(obs=obs, units=sorted(units), samples=samples)
 
 
